@@ -372,7 +372,7 @@ pub fn apply_edit(world: &mut World, t: &mut Tape, prof: &Profile) -> Option<Str
                 // how dependencies are reported is not part of what makes a step up to date: adding or dropping the
                 // depfile / deps binding must not re-run it, and the next real run reports accordingly
                 s.deps = match s.deps {
-                    0 => 1 + (b % 2) as u8,
+                    0 => 1 + (b % 3) as u8,
                     _ => 0,
                 };
                 "dependency reporting (depfile/deps binding)"
@@ -494,8 +494,10 @@ pub fn apply_edit(world: &mut World, t: &mut Tape, prof: &Profile) -> Option<Str
         13 => {
             // change output sets: move an unconsumed implicit output to another command step, add a fresh one, or drop one
             let included: BTreeSet<String> = world.includes.values().flatten().cloned().collect();
+            // a statement taken out for a while still consumes what it names when it comes back
+            let stashed: BTreeSet<String> = world.stash.iter().flat_map(|x| x.ins.iter().chain(&x.imp).chain(&x.oo).chain(&x.val).cloned()).collect();
             let p = editable(world);
-            let consumed = |p: &Proj, o: &str| p.steps.iter().any(|x| x.ins.iter().chain(&x.imp).chain(&x.oo).chain(&x.val).any(|f| f == o)) || p.defaults.iter().any(|d| d == o);
+            let consumed = |p: &Proj, o: &str| p.steps.iter().any(|x| x.ins.iter().chain(&x.imp).chain(&x.oo).chain(&x.val).any(|f| f == o)) || p.defaults.iter().any(|d| d == o) || stashed.contains(o);
             let cmds: Vec<usize> = p.steps.iter().enumerate().filter(|(_, s)| !s.phony && !s.regen).map(|(i, _)| i).collect();
             let ai = *cmds.get(pickn(a, cmds.len()))?;
             match pickn(c, 3) {
@@ -546,7 +548,8 @@ pub fn apply_edit(world: &mut World, t: &mut Tape, prof: &Profile) -> Option<Str
 pub fn gen_spec(t: &mut Tape, world: &World, prof: &Profile) -> InvSpec {
     let proj = &world.disk;
     let j = [1, 2, 3, 4, 16][t.weighted(&[3, 4, 3, 2, 2])];
-    let k = [None, Some(1), Some(2), Some(3), Some(9)][t.weighted(&[3, 2, 2, 1, 2])];
+    // `-k 0`: as in Ninja, no limit; only termination and the absence of internal errors are judged for it
+    let k = [None, Some(1), Some(2), Some(3), Some(9), Some(0)][t.weighted(&[6, 4, 4, 2, 4, 1])];
     let mut targets = vec![];
     if t.chance(prof.target_pct) {
         // names the (possibly regenerated) manifest will contain; names that survive only in the log
@@ -833,6 +836,7 @@ pub fn judge(inv: &mut Inv, prev_clean: Option<&BTreeSet<usize>>, prev_failed: &
                 let nfail = failures.len();
                 let budget = spec.k;
                 match budget {
+                    Some(0) => {}
                     Some(k) if nfail >= k => {
                         if nfail > k {
                             push(&mut v, "C05", "over-budget", format!("{} commands failed with -k {}", nfail, k));
